@@ -497,6 +497,14 @@ def _activate_plugin_worlds() -> Iterator[None]:
 
 @contextmanager
 def _force_jax_x64(enable_double_precision: bool) -> Iterator[None]:
+    scoped_x64 = getattr(jax, "enable_x64", None)
+    if callable(scoped_x64):
+        # Scoped override: exit restores exactly what was active before, also
+        # when the caller is itself inside ``with jax.enable_x64(...)`` (writing
+        # the effective value back with config.update would leak it globally).
+        with scoped_x64(bool(enable_double_precision)):
+            yield
+        return
     read_config = jax.config.read if hasattr(jax.config, "read") else None
     if callable(read_config):
         previous = bool(read_config("jax_enable_x64"))
